@@ -689,6 +689,10 @@ def encodeForm (encs : List (Str Ã— Enc)) (val : Str â†’ Option V) : List (Str Ã
     | some ts => (k, ts) :: encodeForm encs val r
     | none => encodeForm encs val r
 
+/-- the object a client means when it gives `val k` for the declared properties (in declaration order) -/
+def objOf (val : Str â†’ Option V) (props : List (Str Ã— RS)) : List (Str Ã— V) :=
+  props.filterMap fun kp => (val kp.1).map fun v => (kp.1, v)
+
 /-- a value is of a primitive type (what a form can carry) -/
 def hasTy (t : Ty) : V â†’ Bool
   | .int _ => t == .integer || t == .number
